@@ -284,6 +284,7 @@ impl Sut {
     pub fn close(&mut self) {
         if let Some(store) = self.store.take() {
             let _call = crate::util::in_call("close (drop)");
+            self.sess.hold_workers.store(false, Ordering::SeqCst);
             self.sess.install();
             drop(store);
             // every worker of that store has exited (a worker that saw the shutdown flag
@@ -336,6 +337,21 @@ impl Sut {
         }
         if !self.quiesce(timeout_ms) {
             return Err("the flush workers did not finish the coordinator's requests".into());
+        }
+        Ok(())
+    }
+
+    /// Grant one coordinator round and wait for the coordinator alone (the workers
+    /// may be held back by the environment).
+    pub fn coordinator_round_only(&self, timeout_ms: u64) -> Result<(), String> {
+        let r0 = self.sess.coordinator_rounds.load(Ordering::SeqCst);
+        self.sess.tick_grants.store(1, Ordering::SeqCst);
+        let start = std::time::Instant::now();
+        while self.sess.coordinator_rounds.load(Ordering::SeqCst) == r0 {
+            if start.elapsed().as_millis() as u64 > timeout_ms {
+                return Err("the coordinator did not complete its round".into());
+            }
+            std::thread::sleep(std::time::Duration::from_micros(50));
         }
         Ok(())
     }
